@@ -269,13 +269,13 @@ theorem C04_perftrack_persistent (c : Comp) (ρ : Nat → Nat) (hf : FreshFor ρ
   exact Comp.tagOfGid_copied ρ c g
 
 /-- `eval_perftrack` hands every stateful worker exactly what batch apply of the same generation hands it; it is
-refused when the apply segment is not a simple chain. -/
+refused when the composition has no sink and the apply segment is not a simple chain. -/
 theorem C04_perftrack_as_apply (c : Comp) (ρ : Nat → Nat) (hf : FreshFor ρ c) (htail : c.tailClean = true)
     (hdist : c.uidsDistinct = true) (hnt : c.noTrainer c.applyHead c.applyTail = true) (reg : Registry)
-    (gen : Option Nat) (run hp : Nat) :
-    step ⟨c, c.perfOf ρ⟩ reg ⟨.perftrack, gen, run, hp⟩ =
-      if c.isChain then step ⟨c, c.perfOf ρ⟩ reg ⟨.apply, gen, run, hp⟩ else .error .topology := by
-  cases hch : c.isChain with
+    (closed : Bool) (gen : Option Nat) (run hp : Nat) :
+    step ⟨c, c.perfOf ρ closed⟩ reg ⟨.perftrack, gen, run, hp⟩ =
+      if closed || c.isChain then step ⟨c, c.perfOf ρ closed⟩ reg ⟨.apply, gen, run, hp⟩ else .error .topology := by
+  cases hch : (closed || c.isChain) with
   | false => simp only [step, Comp.perfOf, hch, Bool.false_eq_true, if_false]
   | true =>
     simp only [step, Comp.perfOf, hch, if_true]
@@ -286,11 +286,11 @@ theorem C04_perftrack_as_apply (c : Comp) (ρ : Nat → Nat) (hf : FreshFor ρ c
 /-- **Binding, hypotheses on the plain composition only**: with the perftrack composition derived in the model, every
 history on a well-formed plain composition (whose apply tail feeds no trainer) satisfies the property in all four
 modes. -/
-theorem C04_binding_derived (c : Comp) (ρ : Nat → Nat) (hf : FreshFor ρ c) (hwf : c.wfPlain = true)
+theorem C04_binding_derived (c : Comp) (ρ : Nat → Nat) (closed : Bool) (hf : FreshFor ρ c) (hwf : c.wfPlain = true)
     (htail : c.tailClean = true) (hist : List (Action × Fresh)) (hfresh : FreshOk hist) :
-    HistoryOk ⟨c, c.perfOf ρ⟩ hist :=
-  C04_binding_partial ⟨c, c.perfOf ρ⟩
-    (by simp only [Case.wf, hwf, wfPerf_perfOf hf hwf htail, Bool.and_self]) hist hfresh
+    HistoryOk ⟨c, c.perfOf ρ closed⟩ hist :=
+  C04_binding_partial ⟨c, c.perfOf ρ closed⟩
+    (by simp only [Case.wf, hwf, wfPerf_perfOf closed hf hwf htail, Bool.and_self]) hist hfresh
 
 /-- non-vacuity: fresh uids `+ 100` for the two-mapper chain; the derived perftrack composition exists and persists
 the same two occurrences -/
